@@ -36,7 +36,7 @@ func VH_C12_maybeDeflate() {
 		return
 	}
 	vAssert("C12.inflater-always-limited", vNot(vReadAllUnlimited()))
-	vAssert("C12.materialised-at-most-limit-plus-one", vMaterialised()-1 <= eff)
+	vAssertModel("C12.materialised-at-most-limit-plus-one", vMaterialised()-1 <= eff)
 	vAssert("C12.materialised-within-8x-limit", vOr(eff > 1<<23, vMaterialised() <= 8*(eff+1)+(1<<20)))
 	expectOK := vAnd(vNot(vInflateErr(raw)), vAnd(T <= eff, vInflatedDecodeOK(raw)))
 	if err == nil {
